@@ -614,7 +614,7 @@ func filesetvbuf(t *rt.Thread, c *rt.GoCont) (rt.Cont, error) {
 			return nil, err
 		}
 	}
-	bufErr := f.SetWriteBuffer(mode, int(size))
+	bufErr := f.SetWriteBuffer(t.Runtime, mode, int(size))
 	if bufErr != nil {
 		return nil, bufErr
 	}
